@@ -1030,6 +1030,25 @@ pub struct RaftNode {
     codebook_version: AtomicU64,
 }
 
+/// Read-only observation points for the external verification harness.
+#[cfg(neumann_verif)]
+impl RaftNode {
+    /// `(index, term, block height)` of every entry currently in the log.
+    pub fn verif_log_image(&self) -> Vec<(u64, u64, u64)> {
+        self.persistent
+            .read()
+            .log
+            .iter()
+            .map(|e| (e.index, e.term, e.block.header.height))
+            .collect()
+    }
+
+    /// The vote recorded for the current term.
+    pub fn verif_voted_for(&self) -> Option<NodeId> {
+        self.persistent.read().voted_for.clone()
+    }
+}
+
 impl RaftNode {
     pub fn new(
         node_id: NodeId,
